@@ -99,6 +99,13 @@ Inductive op :=
 | SysHold (level : N) (t : option Z) (snaps : list N)    (* HoldRefreshesBySystem(st, level, forever | t, snaps) *)
 | Proceed (g : N) (snaps : list N)                       (* ProceedWithRefresh(st, g, snaps) *)
 | Reset (s : N)                                          (* resetGatingForRefreshed(st, s): s is about to be refreshed *)
+| RefreshAccepted (snaps : list N)                       (* a refresh request (Update/UpdateMany/Revert ...) that was accepted:
+                                                            doInstall calls resetGatingForRefreshed for every snap *)
+| RefreshRefused (snaps done : list N)                   (* a refresh request for snaps that was refused (running apps, conflict, ...).
+                                                            done: the snaps of the request for which doInstall had already
+                                                            succeeded (and called resetGatingForRefreshed) when another snap of
+                                                            the same request caused the refusal; always [] for a one-snap
+                                                            request. No hold record SHOULD change: see the monitor. *)
 | Refreshed (s : N)                                      (* link-snap of a refresh: LastRefreshTime(s) := now *)
 | Tick (d : N).                                          (* the clock advances *)
 
@@ -115,6 +122,8 @@ Definition step (st : state) (o : op) : state :=
       mkState (fst (hold_refresh st level system (sys_duration (st_now st) t) snaps)) (st_lastref st) (st_now st)
   | Proceed g snaps => mkState (proceed (st_gating st) g snaps) (st_lastref st) (st_now st)
   | Reset s => mkState (reset (st_gating st) s) (st_lastref st) (st_now st)
+  | RefreshAccepted snaps => mkState (fold_left reset snaps (st_gating st)) (st_lastref st) (st_now st)
+  | RefreshRefused _ done => mkState (fold_left reset done (st_gating st)) (st_lastref st) (st_now st)
   | Refreshed s => mkState (st_gating st) (fun x => if (x =? s)%N then st_now st else st_lastref st x) (st_now st)
   | Tick d => mkState (st_gating st) (st_lastref st) (st_now st + Z.of_N d)
   end.
@@ -269,8 +278,29 @@ Definition mismatch (c : case) : bool :=
 Record mon := mkMon {
   m_table : list (N * N * Z * Z * N);
   m_lr : N -> Z;
-  m_sys : list (N * (Z * N))        (* snap -> (requested end of the system hold, level) while it must be in force *)
+  m_sys : list (N * (Z * N));       (* snap -> (requested end of the system hold, level) while it must be in force *)
+  m_ep : list (N * N * Z)           (* (held, holder) -> start of the current hold episode, kept by the monitor itself *)
 }.
+
+(* the only operations after which the hold record of s by g may be gone: proceed by g, an accepted refresh request for
+   s (gating snaps only), a refused hold request of g that named s. In particular NOT a refused refresh request, a
+   clock tick, a last-refresh update or a request of another snap. *)
+Definition may_remove (o : op) (res : option Z) (s g : N) : bool :=
+  match o with
+  | Proceed g' snaps => (g' =? g)%N && (match snaps with [] => true | _ => mem s snaps end)
+  | Reset s' => (s' =? s)%N && negb (g =? system)%N
+  | RefreshAccepted snaps => mem s snaps && negb (g =? system)%N
+  | Hold _ g' _ snaps => (g' =? g)%N && mem s snaps && (match res with None => true | Some _ => false end)
+  | _ => false
+  end.
+
+Fixpoint ep_lookup (l : list (N * N * Z)) (s g : N) : option Z :=
+  match l with
+  | [] => None
+  | (s', g', t) :: r => if (s' =? s)%N && (g' =? g)%N then Some t else ep_lookup r s g
+  end.
+Definition present (t : list (N * N * Z * Z * N)) (s g : N) : bool :=
+  match tlookup t s g with Some _ => true | None => false end.
 
 Fixpoint sys_lookup (l : list (N * (Z * N))) (s : N) : option (Z * N) :=
   match l with [] => None | (k, v) :: r => if (k =? s)%N then Some v else sys_lookup r s end.
@@ -302,21 +332,29 @@ Definition monitor_step (n : N) (m : mon) (o : obs) : bool * mon :=
             | Refreshed s => fun x => if (x =? s)%N then now else m_lr m x
             | _ => m_lr m end in
   let tbl := o_table o in
+  (* 0. a hold record only disappears through an operation that may remove it; the monitor's own episode table keeps
+        the start of an episode until such an operation, whatever the implementation's table says *)
+  let vanish_ok := forallb (fun e => match e with (s, g, _, _, _) =>
+        present tbl s g || may_remove (o_op o) (o_res o) s g end) (m_table m) in
+  let ep1 := filter (fun e => match e with (s, g, _) =>
+        present tbl s g || negb (may_remove (o_op o) (o_res o) s g) end) (m_ep m) in
+  let ep := ep1 ++ flat_map (fun e => match e with (s, g, _, _, _) =>
+        match ep_lookup ep1 s g with Some _ => [] | None => [(s, g, now)] end end) tbl in
   (* 1. first-held marks the start of the episode: set to the time of the request that created the entry, unchanged
-        while the entry stays *)
+        while the episode lasts *)
   let episode_ok := forallb (fun e => match e with (s, g, f, _, _) =>
-        match tlookup (m_table m) s g with
-        | Some h => f =? h_first h
-        | None => f =? now
+        match ep_lookup ep s g with
+        | Some t0 => f =? t0
+        | None => false
         end end) tbl in
   (* 2. bounds on every reported hold of a gating snap (default durations only for the 48 h bound) *)
   let bound_ok (held : list (N * N)) := forallb (fun p =>
         let '(s, g) := p in
         if (g =? system)%N then true else
-        match tlookup tbl s g with
+        match ep_lookup ep s g with
         | None => false                                   (* reported without an entry *)
-        | Some h => (now <=? lr s + ninety_days)
-                    && ((s =? g)%N || (now <=? h_first h + forty_eight_h))
+        | Some t0 => (now <=? lr s + ninety_days)
+                     && ((s =? g)%N || (now <=? t0 + forty_eight_h))
         end) held in
   (* 3. refused at the bound, and a refusal leaves none of the requested holds of that snap behind *)
   let refuse_ok :=
@@ -325,8 +363,8 @@ Definition monitor_step (n : N) (m : mon) (o : obs) : bool * mon :=
           if (g =? system)%N then true else
           let at_bound := existsb (fun s =>
                 (lr s + ninety_days <=? now)
-                || match tlookup (m_table m) s g with
-                   | Some h => (h_first h + (if (s =? g)%N then ninety_days else forty_eight_h) <=? now)
+                || match ep_lookup (m_ep m) s g with
+                   | Some t0 => (t0 + (if (s =? g)%N then ninety_days else forty_eight_h) <=? now)
                    | None => false end) snaps in
           match o_res o with
           | None => forallb (fun s => match tlookup tbl s g with None => true | Some _ => false end) snaps
@@ -343,9 +381,9 @@ Definition monitor_step (n : N) (m : mon) (o : obs) : bool * mon :=
         let '(s, (until, level)) := e in
         Bool.eqb (pmem (s, system) (o_held0 o)) (now <=? until)
         && Bool.eqb (pmem (s, system) (o_held1 o)) ((now <=? until) && (1 <=? level)%N)) sys in
-  (negb (episode_ok && bound_ok (o_held0 o) && bound_ok (o_held1 o) && refuse_ok
+  (negb (vanish_ok && episode_ok && bound_ok (o_held0 o) && bound_ok (o_held1 o) && refuse_ok
          && expiry_ok (o_held0 o) && expiry_ok (o_held1 o) && sys_ok),
-   mkMon tbl lr sys).
+   mkMon tbl lr sys ep).
 
 Fixpoint monitor_steps (n : N) (m : mon) (steps : list obs) : bool :=
   match steps with
@@ -358,5 +396,5 @@ Definition monitor_fail (c : case) : bool :=
   match c with mkCase n times lr0 now0 steps =>
     let lr := decode_lr times lr0 in
     forallb (fun o => default_duration (ro_op o)) steps
-    && monitor_steps n (mkMon [] (fun x => assoc lr x 0) []) (map (decode_obs times) steps)
+    && monitor_steps n (mkMon [] (fun x => assoc lr x 0) [] []) (map (decode_obs times) steps)
   end.
